@@ -1,6 +1,80 @@
-//! C17 function level: exhaustive evaluation of UserRole::match_url_by_roles (filled in by the C17 rig).
+//! C17 function level: exhaustive evaluation of the repository's own `UserRole::match_url_by_roles`
+//! (src/user/permission.rs) and of the three path predicates the console login middleware applies before it
+//! (src/console/middle/login_middle.rs: IGNORE_CHECK_LOGIN, STATIC_FILE_PATH, API_PATH).
+//!
+//! `vh c17-func --in <json> [--out <json>]`
+//!   in : {"pairs": [[path, method], ...], "role_sets": [[role, ...], ...]}
+//!   out: {"evaluations": n, "role_sets": [...], "ignore_list": [...], "static_regex": "...", "api_regex": "...",
+//!         "rows": [{"path","method","ignore","static","api","allow":"0101…"}]}     allow[i] <-> role_sets[i]
+//! Nothing is decided here; the oracle lives in lib/c17.py.
 use crate::util::Args;
+use rnacos::console::middle::login_middle::{API_PATH, IGNORE_CHECK_LOGIN, STATIC_FILE_PATH};
+use rnacos::user::permission::UserRole;
+use serde_json::{json, Value};
+use std::sync::Arc;
 
-pub fn run(_args: &Args) -> anyhow::Result<()> {
-    anyhow::bail!("not implemented")
+pub fn run(args: &Args) -> anyhow::Result<()> {
+    let inp = args
+        .get("in")
+        .ok_or_else(|| anyhow::anyhow!("c17-func needs --in <file>"))?;
+    let v: Value = serde_json::from_slice(&std::fs::read(inp)?)?;
+    let pairs: Vec<(String, String)> = v["pairs"]
+        .as_array()
+        .ok_or_else(|| anyhow::anyhow!("pairs missing"))?
+        .iter()
+        .map(|p| {
+            (
+                p[0].as_str().unwrap_or_default().to_string(),
+                p[1].as_str().unwrap_or_default().to_string(),
+            )
+        })
+        .collect();
+    let role_sets: Vec<Vec<Arc<String>>> = v["role_sets"]
+        .as_array()
+        .ok_or_else(|| anyhow::anyhow!("role_sets missing"))?
+        .iter()
+        .map(|s| {
+            s.as_array()
+                .map(|a| {
+                    a.iter()
+                        .map(|r| Arc::new(r.as_str().unwrap_or_default().to_string()))
+                        .collect()
+                })
+                .unwrap_or_default()
+        })
+        .collect();
+    let mut evaluations: u64 = 0;
+    let mut rows = Vec::with_capacity(pairs.len());
+    for (path, method) in &pairs {
+        let mut allow = String::with_capacity(role_sets.len());
+        for rs in &role_sets {
+            let ok = UserRole::match_url_by_roles(rs, path, method);
+            evaluations += 1;
+            allow.push(if ok { '1' } else { '0' });
+        }
+        evaluations += 3;
+        rows.push(json!({
+            "path": path,
+            "method": method,
+            "ignore": IGNORE_CHECK_LOGIN.contains(&path.as_str()),
+            "static": STATIC_FILE_PATH.is_match(path),
+            "api": API_PATH.is_match(path),
+            "allow": allow,
+        }));
+    }
+    let out = json!({
+        "evaluations": evaluations,
+        "role_sets": v["role_sets"],
+        "ignore_list": IGNORE_CHECK_LOGIN.iter().map(|s| s.to_string()).collect::<Vec<_>>(),
+        "static_regex": STATIC_FILE_PATH.as_str(),
+        "api_regex": API_PATH.as_str(),
+        "rows": rows,
+    });
+    let s = serde_json::to_string(&out)?;
+    if let Some(p) = args.get("out") {
+        std::fs::write(p, s)?;
+    } else {
+        println!("{}", s);
+    }
+    Ok(())
 }
